@@ -235,7 +235,7 @@ class Ev:
     def compare(self, op, a, b, node):
         if isinstance(op, (ast.Is, ast.IsNot)):
             _need(b.kind == "NONE", "`is` against something else than None", node)
-            _need(a.kind in ("NONE", "Z"), "`is None` on kind %s" % a.kind, node)
+            _need(a.kind in ("NONE", "Z", "L"), "`is None` on kind %s" % a.kind, node)
             r = a.kind == "NONE"
             return B(static=r if isinstance(op, ast.Is) else not r)
         if isinstance(op, (ast.Eq, ast.NotEq)):
@@ -388,6 +388,11 @@ class Ev:
                 return a
             _need(a.kind == "Z", "check_window_length(<int>|None)", e)
             return V("RZ", "(gen_check_window_length %s)" % a.coq)
+        if f == "check_fh":
+            only(1)
+            a = self.arg(args[0], env)
+            _need(a.kind == "L", "check_fh(<horizon>)", e)
+            return a        # the argument stands for the horizon check_fh returns (validated, sorted)
         if f == "is_int":
             only(1)
             a = self.arg(args[0], env)
